@@ -105,7 +105,7 @@ def segments(events, ep: Endpoints, cutter, with_handshake=True, max_burst=None)
     for bi, (d, data) in enumerate(bursts_of(events)):
         o = "s" if d == "c" else "c"
         off = 0
-        sizes = cutter(d, len(data), bi)
+        sizes = [x for n in cutter(d, len(data), bi) for x in ([n] if n <= 60000 else [60000] * (n // 60000) + ([n % 60000] if n % 60000 else []))]
         assert sum(sizes) == len(data) and all(s > 0 for s in sizes), (sizes, len(data))
         for n in sizes:
             chunk = bytes(data[off:off + n])
